@@ -24,6 +24,7 @@ fn env(par: u8, spin: u8, sp: Option<u8>, preempt: Option<u8>) -> Env {
         spurious_park: sp,
         preempt,
         stall: 0,
+        lock_spin: 0,
     }
 }
 
@@ -31,6 +32,13 @@ fn env(par: u8, spin: u8, sp: Option<u8>, preempt: Option<u8>) -> Env {
 /// let the peer run
 fn stalled(mut e: Env, n: u8) -> Env {
     e.stall = n;
+    e
+}
+
+/// environment in which the first `n` failed lock acquisitions of every thread
+/// are retried by the lock's own loop instead of blocking
+fn lock_spinning(mut e: Env, n: u8) -> Env {
+    e.lock_spin = n;
     e
 }
 
@@ -194,7 +202,13 @@ fn pname(prefix: &str, cap: Cap, class: Class, threads: &[ThreadSpec], e: &Env) 
         e.spin,
         e.spurious_park,
         e.preempt,
-        if e.stall > 0 { format!("stall{}", e.stall) } else { String::new() }
+        if e.stall > 0 {
+            format!("stall{}", e.stall)
+        } else if e.lock_spin > 0 {
+            format!("lspin{}", e.lock_spin)
+        } else {
+            String::new()
+        }
     )
 }
 
@@ -1200,11 +1214,27 @@ fn c04(thorough: bool) -> Suite {
         &[env(2, 1, None, pb3(thorough))],
         false,
     ));
+    // the wait ends without a value (close, last sender gone) while the
+    // receiver is re-polled with another waker / its deadline passes: nothing
+    // may be read out of the never-written slot
+    ps.extend(product(
+        "c04-no-value",
+        &[
+            vec![vec![Op::Close(Side::S)], vec![Op::DropHandle(Side::S)], vec![Op::Send, Op::DropHandle(Side::S)]],
+            vec![vec![Op::RecvRepoll], vec![Op::RecvT(1)], vec![Op::Recv, Op::TryRecv], vec![Op::FStream(0), Op::StreamNext(REPOLL), Op::StreamNext(REPOLL)]],
+        ],
+        &[Cap::B(0), Cap::B(1)],
+        if thorough { &classes } else { &[Class::B3, Class::P, Class::L, Class::DL] },
+        &[vec![(S, S), (A, A)], vec![(A, A), (A, A)], vec![(S, S), (S, S)]],
+        &[(S, Conv::Clone)],
+        &[env(2, 1, None, Some(if thorough { 4 } else { 3 }))],
+        false,
+    ));
     let mut k = vec![Kind::DataRace, Kind::UseAfterReturn];
     k.push(Kind::Panic);
     Suite {
         cfg: cfg(&[Oracle::Intact], &k, true, false),
-        rule: "payload class (zero-sized, over-aligned zero-sized, 1 byte, 3 bytes padded, pointer-sized, 3 words, 24 bytes padded, droppable twins) x transfer path (buffer / written into a blocked receiver's slot / read out of a blocked sender's slot: decided by the schedule) x waiter kind (sync parked, sync timed, async, a stream across two waits re-polled with changing wakers) x capacity {0,1}; a second receiver draining while the first one waits; received bytes must equal the sent pattern (all bytes distinct), slot accesses must be happens-before ordered".into(),
+        rule: "payload class (zero-sized, over-aligned zero-sized, 1 byte, 3 bytes padded, pointer-sized, 3 words, 24 bytes padded, droppable twins) x transfer path (buffer / written into a blocked receiver's slot / read out of a blocked sender's slot: decided by the schedule) x waiter kind (sync parked, sync timed, async, a stream across two waits re-polled with changing wakers) x capacity {0,1}; a second receiver draining while the first one waits; waits that end without a value (close / disconnect) under re-polling; received bytes must equal the sent pattern (all bytes distinct), slot accesses must be happens-before ordered".into(),
         programs: ps,
     }
 }
@@ -2204,13 +2234,56 @@ fn c13(thorough: bool) -> Suite {
         &[env(2, 1, None, pb3(thorough))],
         false,
     ));
+    // nobody completes the operation; another thread merely looks at the
+    // channel (and holds its lock for a moment) while the deadline passes
+    ps.extend(product(
+        "c13-observer",
+        &[
+            vec![
+                vec![Op::SendT(1), Op::Set(0)],
+                vec![Op::SendOT(1), Op::Set(0)],
+                vec![Op::SendT(0), Op::Set(0)],
+                vec![Op::SendOT(0), Op::Set(0)],
+                vec![Op::TrySend, Op::SendOT(1), Op::Set(0)],
+            ],
+            // (the observer keeps its handle until the timed call has returned)
+            vec![
+                vec![Op::Len(Side::R), Op::Wait(0)],
+                vec![Op::IsFull(Side::R), Op::SCount(Side::R), Op::Wait(0)],
+                vec![Op::NewHandle(Side::R, Conv::Clone), Op::Len(Side::R), Op::Wait(0)],
+            ],
+        ],
+        &[Cap::B(0), Cap::B(1)],
+        &[Class::DL],
+        &sync_only(2),
+        &[(S, Conv::Clone)],
+        &[env(2, 1, None, Some(4)), env(1, 1, None, Some(4))],
+        false,
+    ));
+    ps.extend(product(
+        "c13-observer-r",
+        &[
+            vec![
+                vec![Op::Len(Side::S), Op::Wait(0)],
+                vec![Op::IsEmpty(Side::S), Op::RCount(Side::S), Op::Wait(0)],
+                vec![Op::NewHandle(Side::S, Conv::Clone), Op::Len(Side::S), Op::Wait(0)],
+            ],
+            vec![vec![Op::RecvT(1), Op::Set(0)], vec![Op::RecvT(0), Op::Set(0)], vec![Op::RecvT(2), Op::Set(0)]],
+        ],
+        &[Cap::B(0), Cap::B(1)],
+        &[Class::DL],
+        &sync_only(2),
+        &[(S, Conv::Clone)],
+        &[env(2, 1, None, Some(4)), env(1, 1, None, Some(4))],
+        false,
+    ));
     ps.extend(release_family("c13-release", true, true));
     ps.extend(states_family("c13-states", Class::DL, &[Cap::B(1), Cap::B(2)], &[env(2, 1, None, Some(3))], thorough));
     let mut k = vec![Kind::UseAfterReturn, Kind::DataRace, Kind::Panic];
     k.extend_from_slice(&STUCK);
     Suite {
         cfg: cfg(&[Oracle::Timed, Oracle::ExactlyOnce, Oracle::Outcome, Oracle::Released], &k, true, false),
-        rule: "each timed operation (send_timeout, send_option_timeout, recv_timeout; durations of 0..4 virtual ticks) against a peer that arrives, hands off, closes or disconnects at any point, reported parallelism {1,2}, droppable payloads; a later peer after the timeout; 3 threads; a far deadline (200 ticks) with a peer that closes or leaves; the single-op pairs started from eleven non-initial channel states; oracle: a closed / disconnected error is reported before the far deadline, exactly one of success/timeout/closed, timeout never before the deadline on the virtual clock, value moved exactly once or not at all (ledger, Option), nothing left behind (no access to the retired waiter, later operations per the model), every execution terminates".into(),
+        rule: "each timed operation (send_timeout, send_option_timeout, recv_timeout; durations of 0..4 virtual ticks) against a peer that arrives, hands off, closes or disconnects at any point, reported parallelism {1,2}, droppable payloads; a later peer after the timeout; 3 threads; a mere observer holding the lock while the deadline passes; a far deadline (200 ticks) with a peer that closes or leaves; the single-op pairs started from eleven non-initial channel states; oracle: a closed / disconnected error is reported before the far deadline, exactly one of success/timeout/closed, timeout never before the deadline on the virtual clock, value moved exactly once or not at all (ledger, Option), nothing left behind (no access to the retired waiter, later operations per the model), every execution terminates".into(),
         programs: ps,
     }
 }
@@ -2719,6 +2792,30 @@ fn c17(thorough: bool) -> Suite {
             &[env(par, 1, None, Some(2))],
             false,
         ));
+        // the retry loop of the lock really executed: up to 40 failed attempts
+        // per thread come back at once (all phases of spin_cond: spinning,
+        // yielding, zero-length sleeps, geometric back-off, the 1 ms sleep)
+        // while the holder sits in its critical section
+        ps.extend(product(
+            "c17-2-spin",
+            &[vec![vec![Op::LockL], vec![Op::LockL, Op::LockL]], vec![vec![Op::LockL], vec![Op::LockT, Op::LockL]]],
+            &[Cap::B(0)],
+            &[Class::P],
+            &sync_only(2),
+            &[(S, Conv::Clone)],
+            &[lock_spinning(env(par, 1, None, Some(2)), 40), lock_spinning(env(par, 1, None, Some(3)), 6)],
+            false,
+        ));
+        ps.extend(product(
+            "c17-3-spin",
+            &[single.clone(), single.clone(), vec![vec![Op::LockL]]],
+            &[Cap::B(0)],
+            &[Class::P],
+            &sync_only(3),
+            &[(S, Conv::Clone)],
+            &[lock_spinning(env(par, 1, None, Some(2)), 14)],
+            false,
+        ));
         if thorough {
             ps.extend(product(
                 "c17-3-22",
@@ -2745,7 +2842,7 @@ fn c17(thorough: bool) -> Suite {
     let k = vec![Kind::DataRace, Kind::Overlap, Kind::Deadlock, Kind::Livelock, Kind::NoWait, Kind::Panic];
     Suite {
         cfg: cfg(&[], &k, false, true),
-        rule: "kanal's own lock (lock_api::Mutex<RawMutexLock, loom::cell::UnsafeCell<u64>>) driven directly: threads with roles L (lock; critical section; unlock) and T (try_lock; critical section if acquired), once or twice; 2 threads: every role pair, every schedule; 3 and 4 threads preemption-bounded; reported parallelism 1 and 2 (both branches of spin_cond); oracle: overlap monitor with a scheduling point inside the section, loom causality check on the protected cell (exclusion and release->acquire visibility), final counter = number of sections, try_lock inside a no-wait region (no yield, bounded steps), every execution terminates".into(),
+        rule: "kanal's own lock (lock_api::Mutex<RawMutexLock, loom::cell::UnsafeCell<u64>>) driven directly: threads with roles L (lock; critical section; unlock) and T (try_lock; critical section if acquired), once or twice; 2 threads: every role pair, every schedule; 3 and 4 threads preemption-bounded; reported parallelism 1 and 2 (both branches of spin_cond); in the `spin` families up to 40 failed acquisitions per thread are retried by the lock's own loop, so that every phase of it runs against a holder sitting in its critical section; oracle: overlap monitor with a scheduling point inside the section, loom causality check on the protected cell (exclusion and release->acquire visibility), final counter = number of sections, try_lock inside a no-wait region (no yield, bounded steps), every execution terminates".into(),
         programs: ps,
     }
 }
